@@ -115,7 +115,10 @@ func H_popmessage_arbitrary(maxlen int) {
 	data := verifrt.Bytes(n)
 	d, _ := NewDecoder(bytes.NewReader(data))
 	var got []byte
+	verifrt.AllocBudget(16*n + 4096)
+	verifrt.AllocSampling(12, 2)
 	pn := verifrt.Catch(func() { got = d.PopMessage() })
+	verifrt.AllocCheck()
 	verifrt.Assert(!pn, "popmessage-arbitrary-no-panic")
 	if pn || d.err != nil {
 		return
